@@ -648,6 +648,10 @@ class World(object):
 
         @reg('hash')
         def _hash(it, args, kw):
+            if isinstance(args[0], SObj):
+                c, m = args[0].cls.find_method('__hash__')
+                if m is not None:
+                    return it.call_method(args[0], '__hash__', [])
             h = w.hooks.get('hash')
             if h is None:
                 raise OutOfSubset('hash() without a model')
